@@ -1204,7 +1204,7 @@ func (c *control) dirR(colon, at bool, params []any) {
 		slip.TypePanic(c.scope, 0, "argument to radix directive", ta, "fixnum", "bignum")
 	}
 	if at {
-		if digits[0] == '-' {
+		if digits[0] == '-' || (len(digits) == 1 && digits[0] == '0') {
 			slip.ErrorPanic(c.scope, 0, "number too small to print using the Radix directive at %d of %q", c.pos, c.str)
 		}
 		if 4 < len(digits) || (3 < len(digits) && '3' < digits[0]) {
